@@ -266,10 +266,10 @@ func runC05(c *c05Case) *c05Obs {
 		obs.SentTags = append(obs.SentTags, tag)
 		_ = peer.SendResponse(id, tag)
 	}
+	twins := c05TwinCalls(c)
 	for si, st := range c.Steps {
 		curStep = si
-		switch st.Op {
-		case "call":
+		startCall := func() {
 			var ctx context.Context
 			var cancel context.CancelFunc
 			switch st.Ctx {
@@ -303,6 +303,14 @@ func runC05(c *c05Case) *c05Obs {
 					co.RespTag = textOf(resp.Resource)
 				}
 			}()
+		}
+		switch st.Op {
+		case "call":
+			startCall()
+		case "twins":
+			// two callers use the same identifier at the same moment: exactly one of them may hold it
+			startCall()
+			startCall()
 		case "respond":
 			respond(st.ID)
 		case "burst":
@@ -310,12 +318,12 @@ func runC05(c *c05Case) *c05Obs {
 				respond(id)
 			}
 		case "cancel":
-			if st.Call < len(calls) {
+			if st.Call < len(calls) && !twins[st.Call] {
 				calls[st.Call].cancel()
 			}
 		case "race":
 			// the caller's context ends and the response arrives at the same moment: no settling in between
-			if st.Call < len(calls) {
+			if st.Call < len(calls) && !twins[st.Call] {
 				calls[st.Call].cancel()
 			}
 			respond(st.ID)
@@ -360,6 +368,23 @@ type c05Exp struct {
 	Tag     string
 }
 
+// c05TwinCalls returns the call indexes that belong to a "twins" step. Which of the two holds the identifier is not known
+// beforehand, so cancel and race steps that name one of them are no-ops (in the run and in the model alike).
+func c05TwinCalls(c *c05Case) map[int]bool {
+	out := map[int]bool{}
+	n := 0
+	for _, st := range c.Steps {
+		switch st.Op {
+		case "call":
+			n++
+		case "twins":
+			out[n], out[n+1] = true, true
+			n += 2
+		}
+	}
+	return out
+}
+
 func c05Model(c *c05Case) ([]c05Exp, []string) {
 	exp, stream, _ := c05ModelRace(c)
 	return exp, stream
@@ -369,6 +394,7 @@ func c05Model(c *c05Case) ([]c05Exp, []string) {
 // returns either that response or its context's error, and in the second case the response belongs on the stream.
 func c05ModelRace(c *c05Case) ([]c05Exp, []string, map[int]string) {
 	raced := map[int]string{}
+	twins := c05TwinCalls(c)
 	type pend struct {
 		call     int
 		deadline int // virtual ms, -1 none
@@ -402,6 +428,15 @@ func c05ModelRace(c *c05Case) ([]c05Exp, []string, map[int]string) {
 				p.deadline = now + st.Ms
 			}
 			pending[st.ID] = p
+		case "twins":
+			idx := len(exp)
+			if _, ok := pending[st.ID]; ok {
+				exp = append(exp, c05Exp{Outcome: "dup"}, c05Exp{Outcome: "dup"})
+				continue
+			}
+			// the first entry stands for whichever of the two is accepted, the second says "the other one of the pair"
+			exp = append(exp, c05Exp{Outcome: "ctx-at-end"}, c05Exp{Outcome: "twin-of-previous"})
+			pending[st.ID] = &pend{call: idx, deadline: -1}
 		case "respond":
 			deliver(st.ID)
 		case "burst":
@@ -409,6 +444,9 @@ func c05ModelRace(c *c05Case) ([]c05Exp, []string, map[int]string) {
 				deliver(id)
 			}
 		case "cancel":
+			if twins[st.Call] {
+				continue
+			}
 			for id, p := range pending {
 				if p.call == st.Call {
 					exp[p.call] = c05Exp{Outcome: "ctx"}
@@ -416,6 +454,10 @@ func c05ModelRace(c *c05Case) ([]c05Exp, []string, map[int]string) {
 				}
 			}
 		case "race":
+			if twins[st.Call] {
+				deliver(st.ID)
+				continue
+			}
 			if p, ok := pending[st.ID]; ok && p.call == st.Call {
 				sent[st.ID]++
 				tag := fmt.Sprintf("%s#%d", st.ID, sent[st.ID])
@@ -467,8 +509,38 @@ func judgeC05(c *c05Case, obs *c05Obs, o *Outcome) {
 	}
 	lost := false
 	optional := map[string]bool{}
-	for i, co := range obs.Calls {
+	// twins: the model's first entry of a pair describes the accepted caller, whichever of the two that turned out to be
+	calls := append([]*c05CallObs(nil), obs.Calls...)
+	for i := 1; i < len(exp) && i < len(calls); i++ {
+		if exp[i].Outcome != "twin-of-previous" {
+			continue
+		}
+		o.Class("same-id-at-the-same-moment")
+		a, b := calls[i-1], calls[i]
+		if (a.Returned && a.Err != "" && !a.CtxErr && !a.DupErr && a.Lost) || (b.Returned && b.Err != "" && !b.CtxErr && !b.DupErr && b.Lost) {
+			// the session was gone when one of them ran: nothing to say about the pair (the loss itself is handled below)
+			exp[i-1], exp[i] = c05Exp{Outcome: "skip"}, c05Exp{Outcome: "skip"}
+			continue
+		}
+		switch {
+		case a.Returned && a.DupErr && !(b.Returned && b.DupErr):
+			calls[i-1], calls[i] = b, a // b was the accepted one
+			exp[i] = c05Exp{Outcome: "dup"}
+		case b.Returned && b.DupErr:
+			exp[i] = c05Exp{Outcome: "dup"}
+			if a.Returned && a.DupErr {
+				o.Fail("C05/both-twins-rejected", "two simultaneous requests with the fresh id %q were both rejected as duplicates", a.ID)
+			}
+		default:
+			o.Fail("C05/reused-pending-id-not-rejected/simultaneous", "two simultaneous requests with id %q were both accepted (results: %q/%q and %q/%q)", a.ID, a.RespTag, a.Err, b.RespTag, b.Err)
+			exp[i] = c05Exp{Outcome: "skip"}
+		}
+	}
+	for i, co := range calls {
 		e := exp[i]
+		if e.Outcome == "skip" {
+			continue
+		}
 		if co.Returned && co.Err != "" && !co.CtxErr && !co.DupErr && co.Lost {
 			// The session itself ended (a transport whose write failed mid-envelope is closed): what the property says about
 			// pending requests presupposes a live session, so the rest of the history is not judged.
@@ -559,10 +631,17 @@ func genC05(rt *rapid.T) *c05Case {
 	var callIDs []string
 	races := 0
 	for i := 0; i < n; i++ {
-		switch rapid.IntRange(0, 10).Draw(rt, "op") {
+		switch rapid.IntRange(0, 11).Draw(rt, "op") {
+		case 11:
+			c.Steps = append(c.Steps, c05Step{Op: "twins", ID: rapid.SampledFrom(ids).Draw(rt, "twinID"), Ctx: "none"})
+			ncalls += 2
+			callIDs = append(callIDs, "", "") // never the target of a cancel or race step (which of the two holds the id is not known)
 		case 10:
 			if ncalls > 0 {
 				k := rapid.IntRange(0, ncalls-1).Draw(rt, "raceWhich")
+				if callIDs[k] == "" {
+					continue
+				}
 				c.Steps = append(c.Steps, c05Step{Op: "race", Call: k, ID: callIDs[k]})
 				races++
 			}
@@ -585,7 +664,10 @@ func genC05(rt *rapid.T) *c05Case {
 			c.Steps = append(c.Steps, st)
 		case 8:
 			if ncalls > 0 {
-				c.Steps = append(c.Steps, c05Step{Op: "cancel", Call: rapid.IntRange(0, ncalls-1).Draw(rt, "which")})
+				k := rapid.IntRange(0, ncalls-1).Draw(rt, "which")
+				if callIDs[k] != "" {
+					c.Steps = append(c.Steps, c05Step{Op: "cancel", Call: k})
+				}
 			}
 		case 9:
 			c.Steps = append(c.Steps, c05Step{Op: "sleep", Ms: rapid.IntRange(1, 3000).Draw(rt, "sleep")})
